@@ -14,7 +14,7 @@ use serde_json::Value;
 pub fn def() -> PropDef {
     PropDef {
         id: "C14",
-        rule: "all four subsets of {ssse3, avx2} (exhaustive; intersected with what the CPU reports) x generated workloads (encode + decode rounds through ReedSolomonEncoder/Decoder, DefaultRate<DefaultEngine>, the one-shot functions, and raw DefaultEngine primitives; configurations small..medium, sizes with tails), plus raw DefaultEngine transforms over working sets drawn log-uniformly from 1 MiB to 512 MiB (quick) / 1 GiB (thorough). Part masks_per_process (authoritative): every mask in its own fresh child process with the mask set before anything else runs, so that an implementation which caches runtime detection per process is judged correctly; parts masks / big_transforms: the same workloads with the mask switched per thread inside one process (skipped, with a note, when in-process switching turns out to be ineffective). oracle: ISA trace recorded by the hooks in every #[target_feature] entry point: no entry point of an ISA outside the mask is reached; for best = max(mask) every primitive the workload necessarily exercises was executed by the best ISA and no weaker SIMD ISA ran; empty mask => no SIMD entry point at all; output bytes identical under all masks and equal to the explicit NoSimd engine. non-trivial: mask != full and the workload contains a decode; distinct by (workload, mask)",
+        rule: "all four subsets of {ssse3, avx2} (exhaustive; intersected with what the CPU reports) x generated workloads (encode + decode rounds through ReedSolomonEncoder/Decoder, DefaultRate<DefaultEngine>, the one-shot functions, and raw DefaultEngine primitives; configurations small..medium, sizes with tails), a few workloads with thousands of shards up to a full 65536-position working space, plus raw DefaultEngine transforms of 2..65536 shards over working sets drawn log-uniformly from 1 MiB to 512 MiB (quick) / 1 GiB (thorough). Part masks_per_process (authoritative): every mask in its own fresh child process with the mask set before anything else runs, so that an implementation which caches runtime detection per process is judged correctly; parts masks / big_transforms: the same workloads with the mask switched per thread inside one process (skipped, with a note, when in-process switching turns out to be ineffective). oracle: ISA trace recorded by the hooks in every #[target_feature] entry point: no entry point of an ISA outside the mask is reached; for best = max(mask) every primitive the workload necessarily exercises was executed by the best ISA and no weaker SIMD ISA ran; empty mask => no SIMD entry point at all; output bytes identical under all masks and equal to the explicit NoSimd engine. non-trivial: mask != full and the workload contains a decode; distinct by (workload, mask)",
         assumptions: &[
             "decides the x86 selection logic; the AArch64 branch is cfg-ed out on this host",
             "calibration: explicit Avx2 / Ssse3 engines must produce their trace bits, otherwise the check is inconclusive (exit 2), never a violation",
@@ -82,7 +82,11 @@ pub struct MaskCase {
 fn strategy(t: Tier) -> BoxedStrategy<MaskCase> {
     (
         prop_oneof![Just(Via::Rs), Just(Via::DefaultRate), Just(Via::OneShot), Just(Via::Prims)],
-        gen::cfg(Kind::Default, t.pick(300, 1000)),
+        prop_oneof![
+            150 => gen::cfg(Kind::Default, t.pick(300, 1000)),
+            // thousands of shards up to a full 65536-position working space (dispatch keyed on shard count)
+            1 => (prop_oneof![Just((30000usize, 3000usize)), Just((3000, 30000)), Just((9000, 7000)), Just((20000, 20000)), Just((4000, 4200))], any::<bool>()).prop_map(|((k, r), _)| (gen::Cfg { k, r, b: 2 }, "huge")),
+        ],
         gen::data_spec(),
         gen::recv_spec(),
         prop::bool::weighted(0.8),
@@ -427,7 +431,8 @@ pub struct BigXf {
 
 fn big_strategy(t: Tier) -> BoxedStrategy<BigXf> {
     let max_q = t.pick(4 * 29u8, 4 * 30u8);
-    (prop_oneof![3 => 1u8..=3, 1 => 4u8..=8], prop_oneof![1 => (4 * 20u8)..=(4 * 26u8), 3 => (4 * 26u8)..=max_q], any::<u64>()).prop_map(|(size_log, bytes_q, seed)| BigXf { size_log, bytes_q, seed }).boxed()
+    (prop_oneof![3 => 1u8..=3, 1 => 4u8..=8, 2 => 9u8..=16], prop_oneof![1 => (4 * 20u8)..=(4 * 26u8), 3 => (4 * 26u8)..=max_q], any::<u64>())
+        .prop_map(|(size_log, bytes_q, seed)| (size_log, if size_log > 8 { bytes_q.min(4 * 24) } else { bytes_q }, seed)).prop_map(|(size_log, bytes_q, seed)| BigXf { size_log, bytes_q, seed }).boxed()
 }
 
 fn check_big(c: &BigXf, st: &mut Stats) -> CheckResult {
